@@ -109,6 +109,14 @@ func fp(v reflect.Value, h hash.Hash, seen map[uintptr]bool) {
 		for i := 0; i < v.Len(); i++ {
 			fp(v.Index(i), h, seen)
 		}
+		// the memory between len and cap belongs to whoever owns the slice too (another slice of the same array may
+		// hold it): a callee that appends to a slice it was handed writes there
+		if v.Cap() > v.Len() && v.Cap()-v.Len() <= 64 {
+			full := v.Slice(0, v.Cap())
+			for i := v.Len(); i < v.Cap(); i++ {
+				fp(full.Index(i), h, seen)
+			}
+		}
 	case reflect.Array:
 		for i := 0; i < v.Len(); i++ {
 			fp(v.Index(i), h, seen)
